@@ -55,9 +55,26 @@ def main():
     extra = sorted(x for x in os.listdir(os.path.join(data, "m")) if x.lower().endswith((".mod", ".xm", ".it", ".s3m", ".med", ".669", ".far", ".mtm", ".stm")))
     rng.shuffle(extra)
     mods += ["m/" + x for x in extra[: (4 if tier == "quick" else 60)]]
+    # generated modules whose tempo changes on (nearly) every row at speed 1 or 2: consecutive frames then differ in size, so one
+    # xmp_play_buffer call that renders several frames must size each of them on its own (seeded change C12-frame-info-once-per-call)
+    sys.path.insert(0, os.path.join(V.VERIF, "gen")); import modgen, tempfile, shutil
+    gdir = tempfile.mkdtemp(prefix="vp-c12-", dir="/var/tmp")
+    gen = []
+    for gi, fmtname in enumerate(("mod", "it", "xm", "s3m") if tier == "quick" else ("mod", "it", "xm", "s3m") * 4):
+        pat = modgen.empty_pattern(64, 4)
+        for r in range(64):
+            pat[r][0] = dict(note=rng.choice((13, 20, 25, 30)), ins=1) if r % 4 == 0 else None
+            if rng.random() < 0.85:
+                pat[r][1] = dict(fx=('tempo', rng.choice((32, 40, 55, 80, 125, 150, 200, 255, rng.randrange(32, 256)))))
+        song = dict(chn=4, orders=[0, 0], patterns=[pat], speed=rng.choice((1, 1, 2)), bpm=125, restart=0, name="tempo per row")
+        gp = os.path.join(gdir, "tempo%02d.%s" % (gi, fmtname)); open(gp, "wb").write(modgen.WRITERS[fmtname](song)); gen.append(gp)
+    mods[1:1] = gen
     cases = []
     if replay:
         rp = json.load(open(replay))
+        if rp.get("module_b64"):        # a generated module travels inside the replay file
+            import base64
+            rp["module"] = os.path.join(gdir, "replay" + os.path.splitext(rp["module"])[1]); open(rp["module"], "wb").write(base64.b64decode(rp["module_b64"]))
         cases = [(rp["module"], rp["rate"], rp["format"], rp["nframes"], [tuple(o) for o in rp["ops"]])]
     else:
         percfg = 3 if tier == "quick" else 10
@@ -136,7 +153,9 @@ def main():
                 k = next((i for i in range(min(len(co), len(mo))) if co[i] != mo[i]), min(len(co), len(mo)))
                 # shrink: keep ops up to and including the first disagreement
                 if ndis <= 3:
+                    import base64
                     ck.violation({"engine": "play_buffer", "module": m, "rate": rate, "format": fmt, "nframes": nfr, "ops": ops[:k + 1 + sum(1 for o in ops[:k + 1] if o[0] == "T")],
+                                  **({"module_b64": base64.b64encode(open(path, "rb").read()).decode()} if os.path.isabs(m) else {}),
                                   "first_differing_op": k, "expected_model": (mo[k] if k < len(mo) else None)[:200] if k < len(mo) else None,
                                   "got_impl": co[k][:200] if k < len(co) else None,
                                   "broken": "correspondence play_buffer: chunked output / return code / carry-over differs from the frame stream (Model/PlayBuffer.v)"},
@@ -147,6 +166,7 @@ def main():
     ck.cov["rule"] = ("per module/format: reference frames from xmp_play_frame on context A; context B driven by a generated op list (sizes 0..5 frames unaligned, loop limits 0..3, NULL reset, stop); "
                       "every op's (return, bytes, carry-over length) compared with the extracted model run on A's frames; a case is non-trivial/distinct per (module, rate, format, op list)")
     ck.assumptions += ["frames of the reference context equal those the buffered context renders internally (same module, RNG seed, configuration)"]
+    shutil.rmtree(gdir, ignore_errors=True)
     ck.finish()
 
 V.main_wrap(main)
